@@ -47,8 +47,6 @@ theorem pairwise_ext {α : Type} (R : α → α → Prop) (hasym : ∀ a c, R a 
         · subst e; exact absurd (hy2.1 z hz) (hirr z)
         · exact hzt
 
-def SortedCh (l : List (Nat × Nat)) : Prop := l.Pairwise (fun a c => a.1 < c.1)
-def SortedPa (l : List (Nat × Nat)) : Prop := l.Pairwise (fun a c => linkLt a c = true)
 
 theorem linkLt_asymm (a c : Nat × Nat) : linkLt a c = true → linkLt c a = true → False := by
   simp only [linkLt, Bool.or_eq_true, decide_eq_true_eq, Bool.and_eq_true, beq_iff_eq]
@@ -136,5 +134,49 @@ theorem sortedPa_insertParent (l : List (Nat × Nat)) (mv p : Nat) (h : SortedPa
         rcases (mem_insertParent _ _ _ _).mp hy with hyt | rfl
         · exact hp.1 y hyt
         · exact linkLt_total _ _ (by simpa using h1) (fun h => h2 h.symm)
+
+open Book Propagate
+
+/-- `updateDepth` touches no link list -/
+theorem updDepth_links (f i : Nat) (b : Book) (j : Nat) :
+    ((updDepth f i b).nd j).children = (b.nd j).children ∧ ((updDepth f i b).nd j).parents = (b.nd j).parents := by
+  rw [updDepth_eq_run]
+  have := run_inv sysDepth (fun s => ∀ j, (s.nd j).children = (b.nd j).children ∧ (s.nd j).parents = (b.nd j).parents)
+    (by intro s k hs j'
+        simp only [sysDepth]
+        rw [depthStep_eq]; split
+        · show ((s.setDepth k _).nd j').children = _ ∧ ((s.setDepth k _).nd j').parents = _
+          unfold Book.setDepth
+          rw [nd_setNode]; split
+          · next h => rw [← h.1]; exact hs k
+          · exact hs j'
+        · exact hs j') f i b (fun _ => ⟨rfl, rfl⟩)
+  exact this j
+
+theorem sortedLinks_setChildren (b : Book) (p : Nat) (l : List (Nat × Nat)) (hl : SortedCh l) (h : SortedLinks b) :
+    SortedLinks (b.setNode p { b.nd p with children := l }) := by
+  intro k
+  rw [nd_setNode]; split
+  · exact ⟨hl, (h p).2⟩
+  · exact h k
+
+theorem sortedLinks_setParents (b : Book) (c : Nat) (l : List (Nat × Nat)) (hl : SortedPa l) (h : SortedLinks b) :
+    SortedLinks (b.setNode c { b.nd c with parents := l }) := by
+  intro k
+  rw [nd_setNode]; split
+  · exact ⟨(h c).1, hl⟩
+  · exact h k
+
+theorem sortedLinks_linkOnly (b : Book) (c mv p : Nat) (h : SortedLinks b) : SortedLinks (linkOnly b c mv p) := by
+  unfold linkOnly
+  have h1 := sortedLinks_setChildren b p (insertChild (b.nd p).children mv c) (sortedCh_insertChild _ _ _ (h p).1) h
+  exact sortedLinks_setParents _ c _ (sortedPa_insertParent _ _ _ (h1 c).2) h1
+
+theorem sortedLinks_addLink (b : Book) (c mv p : Nat) (h : SortedLinks b) : SortedLinks (addLink b c mv p) := by
+  intro j
+  rw [addLink_eq]
+  have hl := updDepth_links ((linkOnly b c mv p).size + 1) c (linkOnly b c mv p) j
+  rw [hl.1, hl.2]
+  exact sortedLinks_linkOnly b c mv p h j
 
 end Bk
